@@ -7,7 +7,7 @@ PROP = "C13"
 def run(tier, seed, t0):
     return _sess.run_session_check(
         PROP, tier, seed, t0,
-        families=[("listeners", 600, 10000), ("listener_cross", 200, 3000), ("listener_split", 150, 3000),
+        families=[("listeners", 600, 10000), ("listener_cross", 200, 3000), ("listener_split", 150, 3000), ("close_window", 100, 2000),
                   ("mixed", 150, 2000)],
         own_kinds=('listener',),
         mc_jobs=[("MC_Conn_listeners_q.cfg", None, "quick"), ("MC_Conn_listeners.cfg", None, "thorough")],
@@ -17,7 +17,8 @@ def run(tier, seed, t0):
              "listener queue is read to its end; plus sessions in which one kind of listener of a channel is dropped, its "
              "events are discarded, and the other listeners (same channel, other channel, connection) must still get theirs; "
              "plus sessions in which a returned message arrives frame by frame and the return listener is registered, "
-             "replaced or dropped between its frames. "
+             "replaced or dropped between its frames; plus sessions in which confirms, returns and blocked notices arrive after "
+             "the client's Connection.Close has reached the server and before its CloseOk. "
              "non-trivial = a listener was replaced or dropped while events were "
              "still arriving; distinct = distinct step lists",
         nontrivial=lambda s: sum(1 for x in s["steps"] if x.get("do") in ("listen", "dropl")) >= 2,
